@@ -234,6 +234,26 @@ impl Prop for P {
             let buffered = build_raw(bw, ty, &kvs).into_inner().map_err(|_| ()).unwrap().buf;
             cases.push(format!("bytes raw-bufwriter {}", hex(&buffered)));
             stats.bump("built_raw_bufwriter");
+            // writers LENT to the builder and looked at right after finish(), with no further flush or drop:
+            // a BufWriter through get_ref(), and a writer that makes bytes visible only when flushed
+            {
+                let mut lent = io::BufWriter::with_capacity(*rng.pick(&[3usize, 8, 64, 4096]), Vec::new());
+                let mut b = Builder::new_type(&mut lent, ty).unwrap();
+                for (k, v) in &kvs {
+                    b.insert(k, *v).unwrap();
+                }
+                b.finish().unwrap();
+                cases.push(format!("bytes raw-lent-bufwriter-get_ref {}", hex(lent.get_ref())));
+                stats.bump("built_raw_lent_bufwriter_get_ref");
+                let mut st = crate::wrap::StagingSink { committed: vec![], pending: vec![], cap: *rng.pick(&[0usize, 1, 6]) };
+                let mut b = Builder::new_type(&mut st, ty).unwrap();
+                for (k, v) in &kvs {
+                    b.insert(k, *v).unwrap();
+                }
+                b.finish().unwrap();
+                cases.push(format!("bytes raw-commit-on-flush {}", hex(&st.committed)));
+                stats.bump("built_raw_commit_on_flush_writer");
+            }
             if i % 3 == 0 {
                 cases.push(format!("bytes map {}", hex(&build_map(&kvs))));
                 stats.bump("built_map");
